@@ -357,6 +357,7 @@ class StandardBaseContext(Context,
             while 1:
                 ctx.prec = prec + extraprec + 5
                 max_mag = ctx.ninf
+                sum_mag = ctx.ninf
                 s = ctx.zero
                 k = 0
                 for term in terms():
@@ -373,6 +374,11 @@ class StandardBaseContext(Context,
                     break
                 if cancellation < extraprec or ctx._fixed_precision:
                     break
+                if cancellation == ctx.inf and ctx.prec > 100*prec + 1000:
+                    # The sum is still exactly zero at a hundred times the
+                    # precision: take it to be zero instead of raising the
+                    # precision forever
+                    break
                 extraprec += min(ctx.prec, cancellation)
         finally:
             ctx.prec = prec
@@ -385,6 +391,7 @@ class StandardBaseContext(Context,
             while 1:
                 ctx.prec = prec + extraprec + 5
                 max_mag = ctx.ninf
+                sum_mag = ctx.ninf
                 one = ctx.one
                 s = one
                 k = 0
@@ -404,6 +411,11 @@ class StandardBaseContext(Context,
                 if cancellation != cancellation:
                     break
                 if cancellation < extraprec or ctx._fixed_precision:
+                    break
+                if cancellation == ctx.inf and ctx.prec > 100*prec + 1000:
+                    # The product is still exactly one at a hundred times
+                    # the precision: take it to be one instead of raising
+                    # the precision forever
                     break
                 extraprec += min(ctx.prec, cancellation)
         finally:
